@@ -45,6 +45,7 @@ type knobs struct {
 	pEvidence, pBurn, pReward                        int // percent of blocks
 	pVictimAbsent                                    int // percent, per block, for a victim in the consensus set
 	params                                           []string
+	sessionNodeCounts                                []int   // pocketcore SessionNodeCount choices (nil: the spec default, 1)
 	dispatch                                         bool    // query sessions (HandleDispatch) after every commit
 	bigSlash                                         bool    // draw large slash fractions / a high minimum stake
 	slashDT, slashDS                                 []int   // percent choices (nil: defaults of bigSlash)
@@ -146,6 +147,9 @@ func newDirector(rt *rapid.T, c *harness.Case, k knobs) *director {
 	}
 	if k.minSignedPct != nil {
 		np.MinSignedPerWindow = sdk.NewDecWithPrec(int64(rapid.SampledFrom(k.minSignedPct).Draw(rt, "minSigned%")), 2)
+	}
+	if k.sessionNodeCounts != nil {
+		s.PocketParams.SessionNodeCount = int64(rapid.SampledFrom(k.sessionNodeCounts).Draw(rt, "sessionNodeCount"))
 	}
 	d := &director{rt: rt, c: c, k: k, w: w, keys: map[string]crypto.PrivateKey{}, victims: map[string]bool{},
 		plan: map[string]int64{}, jailedAtH: map[string]int64{}, jailDeadline: map[string]time.Time{}}
